@@ -69,12 +69,12 @@ func verifC18Pick(quick, thorough []int16) int16 {
 // Message-set produce versions (v0/v1 = message set v0, v2 = message set v1); the sink knows
 // the version (batching version == encoding version).
 func VerifC18_size_msgset() {
-	v := verifC18Pick([]int16{0, 1, 2}, []int16{0, 1, 2})
+	v := verifC18Pick([]int16{0, 2}, []int16{0, 1, 2})
 	verifC18SizeRun(int32(v), v, verifC18CkWriteLimit|verifC18CkRest)
 }
 
 func VerifC18_size_msgset_batchMax() {
-	v := verifC18Pick([]int16{0, 1, 2}, []int16{0, 1, 2})
+	v := verifC18Pick([]int16{0, 2}, []int16{0, 1, 2})
 	verifC18SizeRun(int32(v), v, verifC18CkBatchMax)
 }
 
@@ -86,12 +86,12 @@ func VerifC18_size_recordbatch() {
 
 // Flexible produce versions 9..13 (13 = topic IDs).
 func VerifC18_size_flexible() {
-	v := verifC18Pick([]int16{9, 12, 13}, []int16{9, 10, 11, 12, 13})
+	v := verifC18Pick([]int16{9, 13}, []int16{9, 10, 11, 12, 13})
 	verifC18SizeRun(int32(v), v, verifC18CkBatchMax|verifC18CkRest)
 }
 
 func VerifC18_size_flexible_writeLimit() {
-	v := verifC18Pick([]int16{9, 12, 13}, []int16{9, 10, 11, 12, 13})
+	v := verifC18Pick([]int16{9, 13}, []int16{9, 10, 11, 12, 13})
 	verifC18SizeRun(int32(v), v, verifC18CkWriteLimit)
 }
 
